@@ -336,6 +336,11 @@ func (fs *memFS) RemoveAll(ctx context.Context, name string) error {
 
 	dir, frag, err := fs.find("remove", name)
 	if err != nil {
+		if os.IsNotExist(err) {
+			// Like os.RemoveAll, removing a path that does not exist,
+			// including one below a missing directory, is not an error.
+			return nil
+		}
 		return err
 	}
 	if dir == nil {
